@@ -61,6 +61,8 @@ func (c *c08) Enabled() []seqx.Event {
 			}
 		}
 	}
+	// A2: A's IP address with another UDP source port; its sequence numbers coincide with A's
+	ev = append(ev, nm(seqx.Ev("HB", PeerA2), "Heartbeat(A:8806)"))
 	for k := 1; k <= len(c.EstUP); k++ {
 		if c.Holder(k) {
 			ev = append(ev, nm(seqx.Ev("Mod", int64(k)), "Mod(s%d)", k), nm(seqx.Ev("Del", int64(k)), "Del(s%d)", k))
